@@ -127,6 +127,18 @@ CHECKS = {
         "REF/ALT clause skipped at sites where the database's own reference allele is inconsistent (toy gene).",
         "DESIGN.md 5/C12",
     ),
+    "C14": (
+        "stateful testing: Hypothesis RuleBasedStateMachine over operation histories with an invariant after every step; subprocess hash-seed sweep; subset/order metamorphic relation for the minor stage",
+        "A rule-based state machine draws a fixture (two generated genes in one BAM, a gene without reads, a profile BAM) and up to 6 operations "
+        "(single / multi-gene genotype() runs incl. a failing gene, stage calls on held objects, every public accessor of Gene, solution "
+        "objects and Coverage, both writers, query printing); after each step: equal result for a repeated operation, multi-gene = "
+        "single-gene results, failing gene absent, deep structural equality of the held Gene with a fresh load and of the coverage tables "
+        "with their snapshot. The same fixture is genotyped in fresh processes with PYTHONHASHSEED 0-7 (results and output files identical) "
+        "and candidate major solutions are refined alone, in every subset and order. Failing histories are minimised by dropping operations "
+        "and replayed from JSON without the library.",
+        "Recorded finding D9 is matched only for candidate sets that differ in structure or pooled variant set; minor scores compared at 2e-3 (documented tie-breaker).",
+        "DESIGN.md 5/C14",
+    ),
     "C15": (
         "metamorphic testing on Hypothesis-generated evidence tables: inject / remove sub-threshold observations; independent support predicate",
         "For a planted noisy table of qualifying observations (half of them exactly on the thresholds) two different sets of observations "
